@@ -316,7 +316,16 @@ pub fn run(seed: u64, thorough: bool, out_dir: &Path, scratch: &Path) -> Out {
                 // restart
                 let node = h.node.take().unwrap();
                 node.stop();
-                h.node = Some(Node::on_disk(&consensus, &dir, true));
+                match std::panic::catch_unwind(std::panic::AssertUnwindSafe(|| Node::on_disk(&consensus, &dir, true))) {
+                    Ok(n) => h.node = Some(n),
+                    Err(p) => {
+                        let msg = p.downcast_ref::<String>().cloned().or_else(|| p.downcast_ref::<&str>().map(|s| s.to_string())).unwrap_or_default();
+                        out.viol.push(json!({"what": format!("the node does not come up again after a freeze pass and a clean stop: {msg}"), "detail": {"case": jhist, "frozen_below": frozen1}}));
+                        h.finish();
+                        let _ = std::fs::remove_dir_all(&pristine);
+                        continue;
+                    }
+                }
                 let o2 = observe(h.node(), true);
                 for b in side_reads(h.node(), &side).into_iter().take(2) {
                     out.viol.push(json!({"what": format!("after a freeze pass and a restart: {b}"), "detail": {"case": jhist, "frozen_below": frozen1}}));
